@@ -376,9 +376,21 @@ def job_search(cfg):
         kinds.append("on an edge")
         pts.append(V[e % nv].copy())
         kinds.append("on a node")
-    pts = np.array(pts)
     rng = np.random.default_rng(harness.seed() + 5)
-    batches = [[i] for i in range(len(pts))] + [sorted(rng.choice(len(pts), size=5, replace=False).tolist()) for _ in range(4)] + [list(range(len(pts)))]
+    n_struct = len(pts)
+    if cfg.get("scatter"):
+        # seed-drawn interior points of EVERY element (the candidate search starts from the closest nodes: a point whose closest node is not a
+        # node of its element must still be found)
+        for e in range(g.Ne):
+            V = X[conn[e]]
+            for _ in range(cfg["scatter"]):
+                w = rng.dirichlet(np.ones(nv) * 0.5)
+                pts.append((w[:, None] * V).sum(0))
+                kinds.append("interior (scattered)")
+    pts = np.array(pts)
+    batches = [[i] for i in range(len(pts))] + [sorted(rng.choice(n_struct, size=5, replace=False).tolist()) for _ in range(4)] + [list(range(n_struct))]
+    if cfg.get("scatter"):
+        batches.append(list(range(n_struct, len(pts))))
     mark = c.mark()
 
     def concrete(env, idx):
@@ -450,6 +462,8 @@ def main():
     configs.append({"kind": "search", "elem": "TRI3", "motion": "R"})
     for et in ["TRI3", "TETRA4"] + (["QUAD4", "HEXA8", "PRISM6"] if tier == "thorough" else []):
         configs.append({"kind": "search", "elem": et, "motion": "S"})
+    for et in ["TETRA4"] + (["TETRA10", "TRI3", "PRISM6"] if tier == "thorough" else []):
+        configs.append({"kind": "search", "elem": et, "scatter": 8})
     for et in ["QUAD4", "HEXA8"] + (["QUAD8", "QUAD9", "HEXA20"] if tier == "thorough" else []):
         configs.append({"kind": "search", "elem": et, "distorted": True})
     for et in ["TRI3", "TRI6", "TETRA4"]:
